@@ -109,7 +109,7 @@ int main(int argc, char **argv){
                             std::vector<double> m; for(size_t j=0; j<a.size(); j++){ m.push_back(a[j]); m.push_back(b[j]); }
                             opts += " -tf " + write_matrix("tf.txt", (int) a.size(), 2, m.data());
                             g.setDomainTransform(a, b);
-                            A("ta", jdvec(a)); A("tb", jdvec(b));
+                            A("ta", jsvec(a)); A("tb", jsvec(b));
                         }else in.seekg(pos);
                     }
                 }
